@@ -83,6 +83,15 @@ def generator_documents(ck, thorough):
     return out
 
 
+def hangs(ck):
+    """Calls that did not return (the drivers' watchdog): no action of NextProtocol explains them."""
+    out = []
+    for h in getattr(ck, "hangs", []):
+        c = (h.get("hang") or {}).get("case") or {}
+        out.append((c.get("lang", "?"), c.get("input")))
+    return out
+
+
 def input_of(trace):
     o = trace[0]
     return o.get("lang"), o.get("input")
